@@ -374,6 +374,9 @@ class Gen:
             self.policy[svc] = (ks, ws if sum(ws) else [1] + ws[1:])
         kinds, wts = self.policy[svc]
         k = r.choices(kinds, wts)[0]
+        if getattr(self, "retired_refuses", None) == svc and r.random() < 0.4:
+            k = "NO"
+            self.retired_refuses = None
         txt = self.free_text()
         if k == "OK":
             return "X", "OK"
@@ -413,6 +416,7 @@ class Gen:
     # --- the scheduler ----------------------------------------------------
     def next(self, w):
         r = self.rnd
+        self.w_ref = w
         self.n += 1
         if self.n > self.max_steps:
             return None
@@ -455,7 +459,8 @@ class Gen:
             if f in self.faults:
                 acts.append((wt, ("reload", f)))
         if "cfg_tables" in self.faults and self.cfg["modules"] != "iauth":
-            acts.append((self.w_tables, ("reload", "cfg_tables")))
+            most = max([sum(1 for i in w.live.values() if i.awaiting.get(n)) for n in self.svc_now] or [0])
+            acts.append((self.w_tables * (1 if most == 0 else 2 if most == 1 else 5), ("reload", "cfg_tables")))
         wts = [a[0] for a in acts]
         a = r.choices([a[1] for a in acts], wts)[0]
         op = self.make(a, w)
@@ -618,6 +623,27 @@ class Gen:
         """The operator edits the service table and/or the rule table: entries added, removed, changed in
         place, a removed name brought back, a whole table emptied."""
         r = self.rnd
+        w = getattr(self, "w_ref", None)
+        waited = sorted(((sum(1 for i in w.live.values() if i.awaiting.get(n)), n) for n in sorted(self.svc_now)), reverse=True) if w else []
+        if waited and waited[0][0] > 0 and r.random() < 0.5:
+            # the service most clients are waiting for right now is taken out of the table
+            del self.svc_now[waited[0][1]]
+            self.fire("cfg_removed_awaited_service" if waited[0][0] == 1 else "cfg_removed_service_awaited_by_several")
+            # what tends to follow: the retired service refuses somebody, and the next edit adds a service
+            # (which may take the retired one's place in the table)
+            self.retired_refuses = waited[0][1]
+            self.add_next = True
+            if r.random() < 0.7:
+                return
+        elif getattr(self, "add_next", False) and len(self.svc_now) < 4 and r.random() < 0.8:
+            self.add_next = False
+            pool = [n for n in SVC_POOL if n not in self.svc_now and n not in self.svc_ever] or [n for n in SVC_POOL if n not in self.svc_now]
+            nm = r.choice(pool)
+            self.svc_now[nm] = r.choice(SVC_TYPES)
+            self.svc_ever.add(nm)
+            self.fire("cfg_added_service_after_retiring_an_awaited_one")
+            if r.random() < 0.7:
+                return
         for _ in range(r.choice([1, 1, 2, 3])):
             if self.cfg["modules"] == "class" and r.random() < 0.4:
                 k = r.random()
@@ -644,7 +670,14 @@ class Gen:
             k = r.random()
             names = sorted(self.svc_now)
             if names and k < 0.35:
-                del self.svc_now[r.choice(names)]
+                # preferably a service that live clients are waiting for (the more the better)
+                w = getattr(self, "w_ref", None)
+                waited = sorted(((sum(1 for i in w.live.values() if i.awaiting.get(n)), n) for n in names), reverse=True) if w else []
+                if waited and waited[0][0] > 0 and r.random() < 0.7:
+                    del self.svc_now[waited[0][1]]
+                    self.fire("cfg_removed_awaited_service" if waited[0][0] == 1 else "cfg_removed_service_awaited_by_several")
+                else:
+                    del self.svc_now[r.choice(names)]
             elif names and k < 0.55:
                 self.svc_now[r.choice(names)] = r.choice(list(SVC_TYPES) + ["proxycheck"])
             elif k < 0.92 and len(names) < 4:
@@ -910,7 +943,9 @@ class Exec:
                 "prev": sorted(set(i.cid for i in w.all if i.ended is not None and i.tag)),
                 "await": sorted((i.cid, s) for i in w.live.values() for s, a in i.awaiting.items() if a),
                 "answered": sorted((i.cid, s) for i in w.live.values() for s, a in i.awaiting.items() if not a),
-                "tagged": sorted(i.cid for i in w.live.values() if i.tag)})
+                "tagged": sorted(i.cid for i in w.live.values() if i.tag),
+                "services": sorted(w.cfg["services"]),
+                "waiting": sorted(i.cid for i in w.live.values() if any(i.awaiting.values()))})
         self.res.steps += 1
         if getattr(self, "stop_quietly", False) and not self.w.viol and not self.h.dead:
             # an accidentally valid damaged file is now in force; the protocol
